@@ -121,6 +121,17 @@ static int check_connect(const uint8_t *s, int len) {
             if (strcmp(kind, "connect_rejoin_flagged_invalid")) { viol(kind, m); bad = 1; }
         }
     }
+    /* numeric port of the authority form: the decimal value of the port text when it is in 1..65535, otherwise -1 and the invalid-host indicator */
+    if (rc == HTP_OK && u->port) {
+        const uint8_t *p = bstr_ptr(u->port); size_t n = bstr_len(u->port), a = 0, b = n; long want = -1;
+        while (a < b && (p[a] == ' ' || p[a] == '\t')) a++;
+        while (b > a && (p[b - 1] == ' ' || p[b - 1] == '\t')) b--;
+        int digits = b > a; unsigned long long v = 0;
+        for (size_t i = a; i < b; i++) { if (p[i] < '0' || p[i] > '9') { digits = 0; break; } if (v < 100000000ULL) v = v * 10 + (unsigned) (p[i] - '0'); }
+        if (digits && v >= 1 && v <= 65535) want = (long) v;
+        if (u->port_number != want) { char m[160]; snprintf(m, sizeof m, "authority-form (CONNECT) target: port_number=%d, expected %ld", u->port_number, want); viol("connect_port_number", m); bad = 1; }
+        else if (want < 0 && !(tx->flags & HTP_HOSTU_INVALID)) { viol("connect_port_not_flagged", "authority-form (CONNECT) target: the port text is not a number in 1..65535 but the invalid-host indicator is not set"); bad = 1; }
+    }
     hx_in_lib = 1; htp_uri_free(u); hx_in_lib = 0;
     bstr_free(in);
     return bad;
@@ -191,6 +202,10 @@ static int worker(int argc, char **argv) {
             char t[64]; int n = snprintf(t, sizeof t, FORM[f], PRE[p], LIT[i], POST[q]); if (n >= (int) sizeof cur) continue;
             memcpy(cur, t, (size_t) n); curlen = n;
             if (!hx_inflight_tick()) { n_eval++; check(cur, n, 0); }
+            if (f == 0) {            /* the same literal as the port of an authority-form target: a:<literal> */
+                n = snprintf(t, sizeof t, "a:%s%s%s", PRE[p], LIT[i], POST[q]); memcpy(cur, t, (size_t) n); curlen = n; cur_connect = 1;
+                if (!hx_inflight_tick()) { n_eval++; check_connect(cur, n); } cur_connect = 0;
+            }
         }
     }
 out:
